@@ -54,6 +54,44 @@ def closure(self, clos, argtys):
         else:
             raise Unsupported(f'closure arity {len(params)} vs {len(argtys)}')
     saved = dict(c.env)
+    # a closure that assigns to a captured variable (FnMut state, e.g. `.map(|&x| { s -= x; (s, x) })`) is not a function
+    # of its argument: a lambda would silently drop the state, so refuse it
+    assigned, local = set(), set()
+
+    def _root(t):
+        while isinstance(t, tuple) and t and t[0] in ('field', 'index', 'deref', 'paren', 'ref'):
+            t = t[1]
+        return t[1][0] if isinstance(t, tuple) and t and t[0] == 'path' and len(t[1]) == 1 else None
+
+    def _pvars(pt):
+        if isinstance(pt, tuple):
+            if pt and pt[0] == 'pvar':
+                local.add(pt[1])
+            for x in pt:
+                _pvars(x)
+        elif isinstance(pt, list):
+            for x in pt:
+                _pvars(x)
+
+    def _scan(n):
+        if isinstance(n, list):
+            for x in n:
+                _scan(x)
+        elif isinstance(n, tuple) and n:
+            if n[0] == 'assign':
+                r_ = _root(n[2])
+                if r_:
+                    assigned.add(r_)
+            if n[0] in ('let', 'closure', 'for', 'iflet', 'match'):
+                _pvars(n[1])
+            for x in n[1:]:
+                _scan(x)
+    for p_ in params:
+        _pvars(p_)
+    _scan(clos[2])
+    captured = sorted(a for a in assigned if a not in local)
+    if captured:
+        raise Unsupported(f'closure mutates captured variable {captured[0]}')
     try:
         binders = [self.bind_pattern(p, t) for p, t in zip(params, argtys)]
         body, bt = self.block_value(clos[2]) if clos[2][0] == 'block' else self.expr_top(clos[2])
